@@ -8,6 +8,8 @@ Driver commands for the stub generator's naming logic (C26):
 * `(stub-check <schema>)` → `ok` | `(conflict vertex A B)` | `(conflict field T A B)` |
   `(conflict entrypoint A B)` |
   `panic:unsupported-type` | `panic:pretty-print`;
+* `(stub-params <schema>)` → the emitted `let <ident>: <type> = parameters.get(…)…` statements (layout removed,
+  sorted, joined by `;;`; `-` if none) or `not-generated:<stub-check answer>`;
 * `(stub-compile <schema>)` → `compiles` | `compile-error` | `not-generated:<stub-check answer>` — the
   model's *prediction* from names alone (rustc is not modelled).
 
@@ -80,6 +82,17 @@ def handleStubgen : String → List Sexp → Option String
     let S ← sgSchema s
     match stubCheck S with
     | .ok => pure (if (compileCauses S).isEmpty then "compiles" else "compile-error")
+    | o => pure ("not-generated:" ++ renderOutcome o)
+  | "stub-params", [s] => do
+    let S ← sgSchema s
+    match stubCheck S with
+    | .ok =>
+      let stmts := (emittedParamStatements S).map fun o =>
+        match o with
+        | some t => String.ofList (t.filter fun c => c != ' ' && c != '{' && c != '}')
+        | none => "?"
+      let sorted := (stmts.toArray.qsort (fun a b => a < b)).toList
+      pure (if sorted.isEmpty then "-" else ";;".intercalate sorted)
     | o => pure ("not-generated:" ++ renderOutcome o)
   | _, _ => none
 
